@@ -26,7 +26,7 @@ def run(chk):
     exprs, meta = [], []
     for it in range(N):
         try:
-            model, X, cfg = U.fitted_model(rng, *((12, 6) if thorough else (8, 4)), kinds=("generic", "generic", "localized"))
+            model, X, cfg = U.fitted_model(rng, *((12, 6) if thorough else (8, 4)), kinds=("generic", "localized", "localized"))
             if it % 5 == 0:     # prefit basis
                 from pysensors.reconstruction import SSPOR
                 basis = impl.make_basis(cfg["basis"])
@@ -41,7 +41,7 @@ def run(chk):
             if rnd == 1:
                 # the SAME object moves on (refit on other data of the same shape / fewer basis modes); exact recovery must hold again
                 try:
-                    if rng.random() < 0.5:
+                    if rng.random() < 0.35:
                         X2 = X + rng.integers(-8, 9, size=X.shape) / 4.0
                         impl.quiet(model.fit, X2, quiet=True, seed=int(rng.integers(0, 100)))
                         cfg = {**cfg, "then": "fit(other data)", "X2": X2.tolist()}
